@@ -45,7 +45,7 @@ def matrix_lifecycle_part(ev, fnd, unknown, tier):
         if r.violation:
             unknown.append({"kind": "model", "tlc": r.violation})
             continue
-        init = {"objs": [{"live": False, "f": [], "kind": "none", "src": 0} for _ in range(nslots)]}
+        init = {"objs": [{"live": False, "f": [], "kind": "none", "src": 0, "rem": False} for _ in range(nslots)]}
         g = vf.StateGraph.from_tlc(r.outfile, init_id=init)
         ev.add_tlc(part, r, {"graph_states": len(g.obs), "graph_edges": g.nedges, "transitions_by_action": vf.by_action(g), "cfg": cfg})
         os.remove(r.outfile)
